@@ -80,12 +80,12 @@ def behaviours(ctx, key, num, depth=160):
 # ------------------------------------------------------------------ conducted replay
 # instances of spec/Producer.tla in hook normal form (spec/MCProducer.tla, ConductSpec) that record EVERY action
 CONDUCT = {
-    "conduct.p1": ("MCProducer.conduct.p1.cfg", dict(idem=False, retryMax=2, leaders=[1], nbrokers=1), 4),
-    "conduct.p2b1": ("MCProducer.conduct.p2b1.cfg", dict(idem=False, retryMax=2, leaders=[1, 1], nbrokers=1), 4),
-    "conduct.p2": ("MCProducer.conduct.p2.cfg", dict(idem=False, retryMax=2, leaders=[1, 2], nbrokers=2), 4),
-    "conduct.idem": ("MCProducer.conduct.idem.cfg", dict(idem=True, retryMax=1, leaders=[1, 1], nbrokers=1), 3),
-    "conduct.idem1": ("MCProducer.conduct.idem1.cfg", dict(idem=True, retryMax=2, leaders=[1], nbrokers=1), 3),
-}
+    "conduct.p1": ("MCProducer.conduct.p1.cfg", dict(idem=False, retryMax=2, leaders=[1], nbrokers=1), 4, (0, 2)),
+    "conduct.p2b1": ("MCProducer.conduct.p2b1.cfg", dict(idem=False, retryMax=2, leaders=[1, 1], nbrokers=1), 4, (0, 2)),
+    "conduct.p2": ("MCProducer.conduct.p2.cfg", dict(idem=False, retryMax=2, leaders=[1, 2], nbrokers=2), 4, (0, 2)),
+    "conduct.idem": ("MCProducer.conduct.idem.cfg", dict(idem=True, retryMax=1, leaders=[1, 1], nbrokers=1), 4, (0, 3)),
+    "conduct.idem1": ("MCProducer.conduct.idem1.cfg", dict(idem=True, retryMax=2, leaders=[1], nbrokers=1), 4, (0, 3)),
+}     # last: submission windows simulated (0 = the application submits whenever it can, k = at most k messages without outcome)
 
 
 def conduct_steps(hist):
@@ -98,7 +98,7 @@ def conduct_steps(hist):
     outstanding = {}      # model broker-worker index -> number of its request at the cluster
     skip_recv = set()     # (bp, id, part, retries, flag): the same message again after a roll-over
     last_flush = {}
-    feat = dict(bounces=0, parked=0, late_fin=0, jumps=0, maxhwm=0, faults=0, parts=set(), sends=0, multi=0)
+    feat = dict(bounces=0, parked=0, late_fin=0, jumps=0, maxhwm=0, faults=0, conn=0, parts=set(), sends=0, multi=0)
     for h in hist:
         a = h["a"]
         if a == "submit":
@@ -155,6 +155,7 @@ def conduct_steps(hist):
             if h["conn"] != "ok":
                 plan["conn"] = h["conn"]
                 feat["faults"] += 1
+                feat["conn"] += 1
             for p, kind in h["kinds"].items():
                 if kind in ("ok", "retry", "retryapp", "fatal"):
                     plan["part"][str(PIDX[p])] = kind
@@ -177,39 +178,69 @@ def conducted(ctx, key, num, pool=None, depth=400):
     """role 2 for conducted replay: simulate the model in hook normal form, keep `num` behaviours (those with retry
     levels, parked messages, late chasers and level jumps first, then at random), and turn each into a scenario
     whose internal steps the conductor of the Go driver follows at the hook points."""
-    cfgname, dcfg, nmsgs = CONDUCT[key]
+    import concurrent.futures
+    cfgname, dcfg, nmsgs, windows = CONDUCT[key]
     pool = pool or max(6 * num, 300)
-    r = ctx.tlc("MCProducer", cfgname, workers=1, timeout=600, simulate="num=%d" % pool, depth=depth, seed=ctx.seed, name=key)
-    if r.error and "CONDUCT" not in r.out:
-        ctx.need(r, "behaviour generation " + key)
+
+    def simulate(w):
+        cfgp = cfgname
+        if w:
+            # a derived instance: the same constants plus a submission window
+            with open(os.path.join(vlib.SPEC, "cfg", cfgname)) as f:
+                txt = f.read().replace("  Record <- RecordOn", "  Record <- RecordOn\n  SubmitWindow <- W%d" % w)
+            cfgp = os.path.join(ctx.scratch, "%s.w%d.cfg" % (key, w))
+            with open(cfgp, "w") as f:
+                f.write(txt)
+        r_ = ctx.tlc("MCProducer", cfgp, workers=1, timeout=600, simulate="num=%d" % (pool // len(windows)), depth=depth, seed=ctx.seed,
+                     name="%s.w%d" % (key, w))
+        if r_.error and "CONDUCT" not in r_.out:
+            ctx.need(r_, "behaviour generation %s (window %d)" % (key, w))
+        return r_
+    with concurrent.futures.ThreadPoolExecutor(max_workers=len(windows)) as ex:
+        rs = list(ex.map(simulate, windows))
+    r = rs[0]
     seen = {}
-    for raw in r.printed_raw("CONDUCT"):
-        js = vlib.tla_unquote(raw)
-        if js not in seen:
-            seen[js] = json.loads(js)
+    for k_, r_ in enumerate(rs):
+        for raw in r_.printed_raw("CONDUCT"):
+            js = vlib.tla_unquote(raw)
+            if js not in seen:
+                seen[js] = (windows[k_], json.loads(js))
     cands = []
-    for js, hist in seen.items():
+    for js, (win, hist) in seen.items():
         if sum(1 for h in hist if h["a"] == "submit") < nmsgs:
             continue
         steps, plans, feat = conduct_steps(hist)
         if feat["bounces"] == 0:
             continue
         score = 4 * feat["late_fin"] + 3 * feat["jumps"] + 2 * min(feat["parked"], 3) + 2 * (feat["maxhwm"] >= 2) + (feat["parts"] >= 2) + (feat["multi"] > 0)
-        cands.append((score, steps, plans, feat))
+        if dcfg["idem"]:
+            # what the idempotent producer does after a connection-level failure is the territory of the recorded findings
+            # (known_findings.json): behaviours without one say more
+            score -= 100 * feat["conn"]
+        cands.append((score, steps, plans, feat, win))
     rnd = random.Random(ctx.seed * 7919 + len(key))
     rnd.shuffle(cands)
-    cands.sort(key=lambda c_: -c_[0])
-    top = cands[:(num + 1) // 2]
-    rest = cands[(num + 1) // 2:]
+    # half of the behaviours: the best-scored ones of every window in turn; the other half at random
+    byw = {w: sorted([c_ for c_ in cands if c_[4] == w], key=lambda c_: -c_[0]) for w in windows}
+    top = []
+    while len(top) < (num + 1) // 2 and any(byw.values()):
+        for w in windows:
+            if byw[w] and len(top) < (num + 1) // 2:
+                top.append(byw[w].pop(0))
+    rest = [c_ for w in windows for c_ in byw[w]]
     rnd.shuffle(rest)
     out = []
-    for score, steps, plans, feat in top + rest[:num - len(top)]:
+    for score, steps, plans, feat, win in top + rest[:num - len(top)]:
         tail = [{"op": "conduct"}, {"op": "wait_outcomes", "n": nmsgs, "ms": 3000}]
         # epilogue (free-running): the partitions must be back to normal - fresh messages flow and Close returns
         extra = [(nmsgs + 1 + p_, p_) for p_ in range(len(dcfg["leaders"]))]
         tail += submits(extra) + [{"op": "wait_outcomes", "n": nmsgs + len(extra), "ms": 3000}, {"op": "close"}]
-        s_ = {"name": "%s#%d" % (key, len(out) + 1), "family": key, "cfg": dict(dcfg), "plans": plans, "steps": tail,
+        s_ = {"name": "%s#%d%s" % (key, len(out) + 1, "w%d" % win if win else ""), "family": key, "cfg": dict(dcfg), "plans": plans, "steps": tail,
               "conduct": steps, "gates": []}
+        if len(out) % 2 == 1 or dcfg["idem"]:
+            # every other behaviour: a submission re-uses a message object the producer has already handed back (if there is
+            # one by then); to the producer that is a new message like any other
+            s_["recycle"] = True
         out.append(s_)
     return out, r, {"model": key, "simulated": len(seen), "with_retries": len(cands), "behaviours": len(out)}
 
